@@ -409,6 +409,12 @@ func (fr *Frame) contractCall(st *State, c *ast.CallExpr, fn *types.Func, ct *Co
 	}
 	env.st = st
 	for _, e := range ct.Ensures {
+		if sc, ok := e.Expr.(*SCall); ok && sc.Fun == "hasFormat" {
+			if !fr.establishFormat(env, sc) {
+				x.u.oblige("call:"+key+":ensures:"+e.Label+suffix, "contract-stale", e.Src, fr.pos(c.Pos()), st.pc, "false").Clause = "contract-stale: hasFormat post-condition cannot be instantiated at this call"
+			}
+			continue
+		}
 		t, err := fr.evalClause(env, e)
 		if err != nil {
 			x.u.oblige("call:"+key+":ensures:"+e.Label+suffix, "contract-stale", e.Src, fr.pos(c.Pos()), st.pc, "false").Clause = "contract-stale: " + err.Error()
